@@ -151,7 +151,16 @@ pub fn observe(c: &PureCase, entry: u8) -> Result<Observed, String> {
                 libapi::sign_via_key(c.hash, &msg, &blob, KeyEntry::TrySign, Some(&mut a))
             }
             _ => {
-                let mut a = AuxBuf::new(vec![0u8; 900]);
+                // one caller-owned buffer that earlier signing calls of the same key (other
+                // states) have already used, handed on exactly as they left it
+                let total: u64 = 1u64 << c.levels.iter().map(|l| l.1).sum::<u32>();
+                let mut a = AuxBuf::new(vec![0u8; 1200]);
+                for prev in [0u64, c.counter / 2, (c.counter + total / 2) % total] {
+                    let pb = hss::private_key_blob(&c.levels, prev, &seed);
+                    let _ = libapi::sign(c.hash, b"earlier call", &pb, Cb::Accept, Some(&mut a));
+                    let used = a.used().to_vec();
+                    a = AuxBuf::new(if used.is_empty() { vec![0u8] } else { used });
+                }
                 let (o, calls) = libapi::sign(c.hash, &msg, &blob, Cb::Accept, Some(&mut a));
                 (o, calls.first().cloned())
             }
